@@ -249,6 +249,8 @@ def writer(out, steps, wrote=None):
                 if wrote is not None:
                     wrote.append(d)
                 a.rec('w', d)
+            elif op == 'reset':
+                yield ('call', out.do_reset)      # stream socket aborted by the peer (RST)
             elif op == 'close':
                 yield ('close', out)
             elif op == 'exit':
